@@ -19,35 +19,43 @@ func c14Sweeps() []c14Sweep {
 	add := func(sc string, l, kv, ka, fam int, full bool) {
 		sw = append(sw, c14Sweep{Scenario: sc, L: l, Kv: kv, Ka: ka, Fam: fam, Full: full})
 	}
+	every := []string{"single2", "twin", "shared", "three", "heights", "formats", "unverifiable", "single"}
 	L := vr.Pick(5, 7)
 	// 1. complete verdict histories of length L over the lean alphabet, honest in-order network
-	for _, sc := range []string{"single2", "heights", "formats", "unverifiable", "shared", "three", "twin"} {
+	for _, sc := range every[:7] {
 		add(sc, L, L, 0, 0, false)
 	}
 	add("single", vr.Pick(4, 6), vr.Pick(4, 6), 0, 0, false)
-	// 2. every verdict history with <= 2 (3) deviations x every network schedule with <= 2 (3) deviations, all event families
-	for _, sc := range []string{"single2", "single", "twin", "heights", "shared", "formats", "three", "unverifiable"} {
-		add(sc, L, 1, 2, all|c14FamAtOffer, false)
+	// 2. network schedules proper: no verdict deviation, up to 3 (4) network deviations, every event family
+	add("single2", L, 0, 3, all|c14FamAtOffer|c14FamAtInfo, false)
+	add("single", L, 0, vr.Pick(2, 3), all|c14FamAtOffer, false)
+	add("single", L, 0, vr.Pick(3, 5), c14FamOrder, false)
+	add("twin", L, 0, vr.Pick(2, 3), all|c14FamAtOffer, false)
+	// 3. <= 2 verdict deviations x <= 1 network deviation, every family, every scenario with one-chunk/two-chunk snapshots
+	for _, sc := range []string{"single2", "twin", "shared", "three"} {
 		add(sc, L, 2, 1, all|c14FamAtOffer|c14FamAtInfo, false)
 	}
-	// 3. arrival orders proper: good chunks only, up to 4 (5) network deviations, no / one verdict deviation
-	for _, sc := range []string{"single", "single2", "twin"} {
-		add(sc, L, 0, vr.Pick(3, 4), c14FamOrder, false)
-		add(sc, L, 1, vr.Pick(2, 3), c14FamOrder|c14FamBad, false)
-	}
-	// 4. full verdict alphabet (result x refetch set x reject set)
-	for _, sc := range []string{"single2", "shared", "twin"} {
-		add(sc, L, 2, 0, 0, true)
-		add(sc, L, 1, 1, c14FamOrder|c14FamAdv, true)
-	}
+	// 4. <= 1 verdict deviation x <= 2 network deviations
+	add("single2", L, 1, 2, c14FamOrder|c14FamBad|c14FamAtOffer, false)
+	add("shared", L, 1, 2, all|c14FamAtOffer, false)
+	add("three", L, 1, 2, all|c14FamAtOffer, false)
+	// 5. full verdict alphabet (result x refetch set x reject set)
+	add("single2", L, 2, 0, 0, true)
+	add("shared", L, 2, 0, 0, true)
 	if vr.Thorough() {
-		for _, sc := range []string{"single2", "single", "twin", "heights", "shared", "formats", "three"} {
-			add(sc, L, 2, 2, all|c14FamAtOffer, false)
-			add(sc, L, 3, 1, c14FamOrder|c14FamAdv, false)
+		for _, sc := range []string{"heights", "formats", "unverifiable", "single"} {
+			add(sc, L, 2, 1, all|c14FamAtOffer|c14FamAtInfo, false)
+		}
+		for _, sc := range []string{"single2", "twin", "heights", "formats", "unverifiable", "single"} {
+			add(sc, L, 1, 2, all|c14FamAtOffer, false)
 		}
 		for _, sc := range []string{"single2", "shared", "twin"} {
+			add(sc, L, 1, 1, c14FamOrder|c14FamAdv, true)
 			add(sc, L, 3, 0, 0, true)
-			add(sc, L, 2, 1, c14FamOrder|c14FamAdv, true)
+		}
+		for _, sc := range every {
+			add(sc, L, 3, 1, c14FamOrder|c14FamAdv|c14FamRemove, false)
+			add(sc, L, 2, 2, all|c14FamAtOffer, false)
 		}
 	}
 	return sw
@@ -108,6 +116,7 @@ func TestVerifC14Sync(t *testing.T) {
 	}
 
 	selfcheck := int64(0)
+	seen := map[uint64]struct{}{} // distinct behaviours (journal identities) of this shard
 	visit := func(c c14Case, res *c14Result) bool {
 		r.Eval()
 		r.Traces++
@@ -117,9 +126,10 @@ func TestVerifC14Sync(t *testing.T) {
 			r.Add("inconclusive_runs", 1)
 			return r.Extra["inconclusive_runs"].(int64) < 5
 		}
-		sig := c14JournalSig(res.Journal)
-		if len(c.Choices) > 0 {
-			r.NT(sig)
+		sig := c14JournalHash(res.Journal)
+		if _, dup := seen[sig]; !dup && len(c.Choices) > 0 {
+			seen[sig] = struct{}{}
+			r.NTCount(1)
 		}
 		if res.Panicked != "" {
 			r.Add("diag_syncer_panicked", 1)
@@ -148,7 +158,7 @@ func TestVerifC14Sync(t *testing.T) {
 		// determinism self-check on a sample: same vector, same journal
 		if r.Evaluations%257 == 0 {
 			selfcheck++
-			if s2 := c14JournalSig(run(c).Journal); s2 != sig {
+			if s2 := c14JournalHash(run(c).Journal); s2 != sig {
 				r.Cap("self-check: the same choice vector produced two different journals")
 				r.Note("nondeterministic: " + fmt.Sprint(c))
 			}
